@@ -228,6 +228,9 @@ structure Proxy where
 /-- `LinuxShell.run(...)` up to the `yield` of `cmd_context`: the command line is sent and read
     back, the log stream attached, the prompt registered as death string -/
 def runEnter (ps1 line : Bytes) (s : St) : ShRes Proxy :=
+  -- `RunCommandProxy.__new__` re-classes the borrowed (deep-copied) channel: `READ_CHUNK_SIZE` is
+  -- the class default again, whatever the lender's class said
+  let s := { s with chunk := Params.readChunkSize }
   match sendline line true none s with
   | (.error e, s) => (.error (.chan e), s)
   | (.ok _, s) =>
@@ -253,10 +256,13 @@ def terminate0 (px : Proxy) (a2 : List Bytes) (s : St) : ShRes (List Char) :=
 
 def endsInNl (b : Bytes) : Bool := b.getLast? == some Tty.LF || b.getLast? == some Tty.CR
 
+/-- the test for the `printf` fast path: single-line text without NUL -/
+def fastPath (data : Bytes) : Bool := !data.contains Tty.LF && !data.contains Tty.CR && !data.contains 0
+
 /-- `Path.write_text(data)`; `t` is the Python string -/
 def writeText (ps1 path : Bytes) (t : List Char) (a1 a2 : List Bytes) (s : St) : ShRes Nat :=
   let data := enc t
-  if !data.contains Tty.LF && !data.contains Tty.CR then
+  if fastPath data then
     -- fast path: `exec0("printf", "%s", data, RedirStdout(self))`, returns `len(data)` (characters)
     match exec0Fed (printfLine path data) a1 a2 s with
     | (.error e, s) => (.error e, s)
